@@ -33,7 +33,7 @@ def model(chk: Check, tier: str):
     chk.add(states=r.distinct, transitions=r.generated)
 
 
-def sessions(tier: str, seed: int, kinds=cr.vloop.CLIENTS):
+def sessions(tier: str, seed: int, kinds=cr.vloop.CLIENTS, wd=None):
     rng = random.Random(seed)
     recs, meta = [], []
     nmsg = {"quick": 4, "thorough": 6, "selftest": 3}[tier]
@@ -69,6 +69,68 @@ def sessions(tier: str, seed: int, kinds=cr.vloop.CLIENTS):
                 rec["canonical"] = False
             recs.append(rec)
             meta.append((kind, cb_name, "whole" if not cuts else "bytewise" if len(cuts) == n - 1 else f"{len(cuts)}-cut", cuts[:8]))
+    recs2, meta2 = route_sessions(tier, seed, kinds, wd)
+    return recs + recs2, meta + meta2
+
+
+def claim_message(src: int):
+    """an ISO address claim as a raw frame (the library cannot encode INDIRECT_LOOKUP fields)"""
+    return ("raw", 60928, src, 255, 6, bytes.fromhex("e903e0e7008232c0"))
+
+
+def route_sessions(tier: str, seed: int, kinds, wd):
+    """the less-travelled ways of using a client: built with options (the reference decoder gets the same ones), the receive
+    callback registered after connect() or replaced while the link is idle, the link lost and re-established between two parts of
+    the traffic (one client, one decoder: what it learnt on the first link still holds on the second)"""
+    from nmea2000.consts import PhysicalQuantities as PQ
+    rng = random.Random(seed + 77)
+    recs, meta = [], []
+    for kind in kinds:
+        hist = cr.history_messages(rng)
+        msgs = [claim_message(s) for s in (10, 11, 12)] + hist[:4] + [claim_message(40)] + hist[4:]
+        packets = cr.wire_packets(kind, msgs, rng, with_bad=False)
+        stream = b"".join(p for p, _ in packets)
+        n = len(stream)
+        ends = []                       # packet boundaries
+        pos = 0
+        for p, _ in packets:
+            pos += len(p)
+            ends.append(pos)
+        optsets = [("network-map", {"build_network_map": True}),
+                   ("units", {"preferred_units": {PQ.ANGLE: "deg", PQ.TEMPERATURE: "C"}}),
+                   ("exclude-id", {"exclude_pgns": ["gnssPositionData"]}),
+                   ("include-mixed", {"include_pgns": [127250, "isoAddressClaim"]}),
+                   ("network-map+manufacturer", {"build_network_map": True, "exclude_manufacturer_code": ["garmin"]}),
+                   ("network-map+units", {"build_network_map": True, "preferred_units": {PQ.ANGLE: "deg"}})]
+        if wd is not None:
+            optsets.append(("dump", {"dump_to_file": str(wd / f"client-dump-{kind}.jsonl")}))
+            optsets.append(("dump-filter+units", {"dump_to_file": str(wd / f"client-dump2-{kind}.jsonl"), "dump_pgns": [59904],
+                                                  "preferred_units": {PQ.ANGLE: "deg"}}))
+        if tier == "selftest":
+            optsets = optsets[::3]
+        for oname, kw in optsets:
+            for cuts in ([], list(range(1, n)) if tier != "selftest" else [n // 2], sorted(rng.sample(range(1, n), 5))):
+                rec, _ = cr.receive_session(kind, packets, cr.cut(stream, cuts), client_kwargs=kw, sample_after=False)
+                if kind == "waveshare":
+                    rec["canonical"] = False
+                recs.append(rec)
+                meta.append((kind, f"ok/options={oname}", "whole" if not cuts else "bytewise" if len(cuts) == n - 1 else f"{len(cuts)}-cut", cuts[:8]))
+        mid = ends[len(ends) // 2]
+        for oname, kw in (("none", {}), ("network-map", {"build_network_map": True})):
+            # the link is lost between the two halves of the traffic
+            rec, _ = cr.receive_session(kind, packets, [stream[:mid], stream[mid:]], client_kwargs=kw, sample_after=False, relink_before=1)
+            if kind == "waveshare":
+                rec["canonical"] = False
+            recs.append(rec)
+            meta.append((kind, f"ok/options={oname}/link-replaced", "2-cut", [mid]))
+        # the receive callback set after connect(); another callback taking over while the link is idle
+        for how, chunks in (("late", [stream]), ("late", [stream[:mid], stream[mid:]]), ("replace", [stream[:mid], stream[mid:]]),
+                            ("replace", [stream[:ends[0]], stream[ends[0]:]])):
+            rec, ev_ = cr.receive_session(kind, packets, chunks, sample_after=False, register=how)
+            if kind == "waveshare":
+                rec["canonical"] = False
+            recs.append(rec)
+            meta.append((kind, f"ok/callback-registered={how}", "whole" if len(chunks) == 1 else "2-cut", [len(chunks[0])]))
     return recs, meta
 
 
@@ -162,7 +224,7 @@ def system_part(chk: Check, wd, tier: str, seed: int):
 def bind(chk: Check, tier: str, seed: int):
     wd = workdir("C12")
     system_part(chk, wd, tier, seed)
-    recs, meta = sessions(tier, seed)
+    recs, meta = sessions(tier, seed, wd=wd)
     judge(chk, wd, recs, meta)
     per = {}
     for m in meta:
